@@ -25,13 +25,16 @@ RULE = ("one case = (map pipeline | plain DAG) x execution kind (pipeline(...), 
         "invocation) of the reference call log is injected as the single failing call with a rotating exception type "
         "(ValueError('m'), KeyError('k'), ZeroDivisionError(), RuntimeError(), picklable CustomError(7,'detail')); "
         "two-failure plans (more in thorough) and plans in which the user code raises one shared exception object from "
-        "several invocations. evaluations = injected plans executed; distinct_nontrivial = distinct "
+        "several invocations; functions may run under profile=True (real ResourceProfiler thread; every case ends with a census "
+        "of stray non-daemon threads) and about one case in eight runs as a multiprocessing child "
+        "(multiprocessing.parent_process seam). evaluations = injected plans executed; distinct_nontrivial = distinct "
         "(workload, execution kind, failing function, failing arguments) in which the fault actually fired")
 COMPONENTS = {
     "real": ["pipefunc Pipeline.__call__/run/_run/_execute_func", "run_map/run_map_async error paths", "handle_error",
              "PipeFunc.__call__ + ErrorSnapshot (capture, reproduce, save_to_file/load_from_file via cloudpickle)",
              "pickle round-trip of exceptions incl. __notes__ (process mode)", "load_outputs after the failure"],
-    "stub": ["executor pools", "process boundary", "event loop selector", "multiprocessing.Manager", "raw file writes"],
+    "stub": ["executor pools", "process boundary", "event loop selector", "multiprocessing.Manager", "raw file writes",
+             "multiprocessing.parent_process (main program vs multiprocessing child)"],
     "not_run": ["real ProcessPoolExecutor's BrokenProcessPool path for unpicklable exceptions"],
 }
 ASSUMPTIONS = [
